@@ -24,6 +24,8 @@
      D2  tables of children are merged without removing conflicting key-sequences (ValueStore::append)
      D3  a keyref whose key has no table in scope is reported even if the keyref selected nothing
          (ValueStore::endDocumentFragment)
+     D4  the table of a key/unique that is violated on its element is kept and propagated; by 3.11.5 such a constraint is
+         not "eligible" and contributes no entries (only secondary keyref errors of an invalid instance depend on it)
      D5  a field value is stored, and a complete tuple is checked and entered, the moment it is matched; a second
          match of a field overwrites the first and re-enters the tuple (ValueStore::addValue)
      D6  one current tuple and one may-match flag per constraint, shared by nested selected nodes
@@ -38,7 +40,7 @@ EXTENDS Naturals, Sequences, FiniteSets, TLC
 NoLex == <<>>
 NoVal == <<"none">>
 AllKinds == {"dup-unique", "dup-key", "key-missing", "key-nillable", "keyref", "field-multi"}
-Devs == {"D1", "D2", "D3", "D5", "D6", "D7"}
+Devs == {"D1", "D2", "D3", "D4", "D5", "D6", "D7"}
 LeafNames == {"f", "g"}
 Nillable(nm) == nm = "g"
 EmptyF == [x \in {} |-> {}]
@@ -93,11 +95,15 @@ HasDup(C, c, e) ==     \* two members of the qualified node set with equal key-s
     LET q == QNodes(C, c, e) IN Cardinality({KeySeq(C, c, n) : n \in q}) # Cardinality(q)
 NilField(T, c, n) == \E i \in 1..Len(c.flds) : \E fn \in FieldNodes(T, n, c.flds[i]) : fn[1] = "e" /\ Nillable(Name(T, fn[2]))
 
+\* clause 4.1 / 4.2 of 3.11.4 holds for key/unique K on its scope element e (then K is "eligible" on e, 3.11.5)
+Satisfied(C, K, e) ==
+    /\ ~HasDup(C, K, e)
+    /\ K.kind = "key" => \A n \in Targets(C.tree, K, e) : Qualified(C.tree, K, n) /\ ~NilField(C.tree, K, n)
 \* 3.11.5: the node table of key/unique K in the identity-constraint table of element e
 RECURSIVE Table(_, _, _)
 Table(C, K, e) ==
     LET T == C.tree
-        own == IF Name(T, e) = K.on THEN {<<KeySeq(C, K, n), n>> : n \in QNodes(C, K, e)} ELSE {}
+        own == IF Name(T, e) = K.on /\ Satisfied(C, K, e) THEN {<<KeySeq(C, K, n), n>> : n \in QNodes(C, K, e)} ELSE {}
         kids == UNION {Table(C, K, ch) : ch \in Children(T, e)}
         ownT == {x[1] : x \in own}
         fromKids == {x \in kids : x[1] \notin ownT /\ ~\E y \in kids : y[1] = x[1] /\ y[2] # x[2]}
@@ -143,7 +149,8 @@ MKey(dv, ci, sk, sel, f) == IF "D6" \in dv THEN <<ci, f>> ELSE <<sk, sel, f>>   
 Blank(c) == [vals |-> [i \in 1..Len(c.flds) |-> NoVal], multi |-> FALSE, nil |-> FALSE]
 Cnt(cur) == Cardinality({i \in DOMAIN cur.vals : cur.vals[i] # NoVal})
 Complete(cur) == \A i \in DOMAIN cur.vals : cur.vals[i] # NoVal
-NewStore == [tab |-> {}, dead |-> {}]
+NewStore == [tab |-> {}, dead |-> {}, bad |-> FALSE]
+Spoils(c, kinds) == IF c.kind = "key" THEN kinds # {} ELSE IF c.kind = "unique" THEN "dup-unique" \in kinds ELSE FALSE
 Tuples(tab) == {x[1] : x \in tab}
 
 S0 == [stack |-> <<>>, stores |-> EmptyF, curs |-> EmptyF, may |-> {}, matchers |-> <<>>, mctx |-> <<>>,
@@ -164,16 +171,17 @@ AddValue(dv, C, st, m, lex, nilDecl) ==
               tab == st.stores[sk].tab
               dup == full /\ \E x \in tab : x[1] = cur2.vals
               tab2 == IF full THEN {x \in tab : x[1] # cur2.vals} \cup {<<cur2.vals, m.sel>>} ELSE tab
+              es == (IF nilDecl /\ c.kind = "key" THEN {"key-nillable"} ELSE {}) \cup (IF ~mayOk THEN {"field-multi"} ELSE {})
+                    \cup (IF dup THEN DupKind(c) ELSE {})
           IN [st EXCEPT !.curs = Put(@, ck, cur2),
-                        !.stores = Put(@, sk, [st.stores[sk] EXCEPT !.tab = tab2]),
+                        !.stores = Put(@, sk, [st.stores[sk] EXCEPT !.tab = tab2, !.bad = @ \/ Spoils(c, es)]),
                         !.may = @ \ {mk},
-                        !.errs = @ \cup (IF nilDecl /\ c.kind = "key" THEN {"key-nillable"} ELSE {})
-                                   \cup (IF ~mayOk THEN {"field-multi"} ELSE {})
-                                   \cup (IF dup THEN DupKind(c) ELSE {})]
+                        !.errs = @ \cup es]
        ELSE
           LET cur2 == IF mayOk THEN [cur EXCEPT !.vals[m.f] = v, !.nil = @ \/ nilDecl] ELSE [cur EXCEPT !.multi = TRUE]
-          IN [st EXCEPT !.curs = Put(@, ck, cur2), !.may = @ \ {mk},
-                        !.errs = @ \cup (IF ~mayOk THEN {"field-multi"} ELSE {})]
+              es == IF ~mayOk THEN {"field-multi"} ELSE {}
+          IN [st EXCEPT !.curs = Put(@, ck, cur2), !.may = @ \ {mk}, !.errs = @ \cup es,
+                        !.stores = Put(@, sk, [st.stores[sk] EXCEPT !.bad = @ \/ Spoils(c, es)])]
 
 RECURSIVE AddValues(_, _, _, _, _, _)
 AddValues(dv, C, st, m, lexes, nilDecl) ==
@@ -235,14 +243,16 @@ EndValueScope(dv, C, st, m, k) ==
         sk == SKey(dv, m.ic, m.depth, m.root)
         cur == st.curs[CKey(dv, sk, k)]
         short == c.kind = "key" /\ Cnt(cur) # Len(c.flds)
-    IN IF "D5" \in dv THEN [st EXCEPT !.errs = @ \cup (IF short THEN {"key-missing"} ELSE {})]
+        miss == [st EXCEPT !.errs = @ \cup (IF short THEN {"key-missing"} ELSE {}),
+                           !.stores = Put(@, sk, [st.stores[sk] EXCEPT !.bad = @ \/ short])]
+    IN IF "D5" \in dv THEN miss
        ELSE IF cur.multi THEN st
-       ELSE IF ~Complete(cur) THEN [st EXCEPT !.errs = @ \cup (IF short THEN {"key-missing"} ELSE {})]
+       ELSE IF ~Complete(cur) THEN miss
        ELSE LET tab == st.stores[sk].tab
                 dup == \E x \in tab : x[1] = cur.vals
-            IN [st EXCEPT !.stores = Put(@, sk, [st.stores[sk] EXCEPT !.tab = tab \cup {<<cur.vals, k>>}]),
-                          !.errs = @ \cup (IF dup THEN DupKind(c) ELSE {})
-                                     \cup (IF cur.nil /\ c.kind = "key" THEN {"key-nillable"} ELSE {})]
+                es == (IF dup THEN DupKind(c) ELSE {}) \cup (IF cur.nil /\ c.kind = "key" THEN {"key-nillable"} ELSE {})
+            IN [st EXCEPT !.stores = Put(@, sk, [st.stores[sk] EXCEPT !.tab = tab \cup {<<cur.vals, k>>}, !.bad = @ \/ Spoils(c, es)]),
+                          !.errs = @ \cup es]
 
 RECURSIVE EndLoop(_, _, _, _, _)
 EndLoop(dv, C, st, k, j) ==                \* matchers see the end tag, last activated first
@@ -264,12 +274,13 @@ MergeOwn(acc, own) == LET mine == Tuples(own.tab) IN [acc EXCEPT !.tab = own.tab
 MergeKids(cur, old) ==
     LET conflicts == {x[1] : x \in {x \in cur.tab : \E y \in old.tab : y[1] = x[1] /\ y[2] # x[2]}}
         dead == old.dead \cup conflicts
-    IN [tab |-> {e \in cur.tab \cup old.tab : e[1] \notin dead}, dead |-> dead]
+    IN [tab |-> {e \in cur.tab \cup old.tab : e[1] \notin dead}, dead |-> dead, bad |-> FALSE]
 
 \* ValueStoreCache::transplant
 Transplant(dv, st, m) ==
     LET new == SKey(dv, m.ic, m.depth, m.root) IN
-    IF m.ic \in DOMAIN st.gmap
+    IF "D4" \notin dv /\ st.stores[new].bad THEN st         \* not eligible: contributes no entries
+    ELSE IF m.ic \in DOMAIN st.gmap
     THEN LET ck == st.gmap[m.ic]
          IN [st EXCEPT !.stores = Put(@, ck, IF "D2" \in dv THEN AppendCoded(st.stores[ck], st.stores[new])
                                                ELSE MergeOwn(st.stores[ck], st.stores[new]))]
